@@ -1099,7 +1099,8 @@ func genC06(ctx *hx.Ctx, emit func(hx.Case)) {
 	// JSON renderings and malformed JSON (regression of #36: trailing data)
 	js := sch("ty", "object", "props", []any{[]any{"a", sch("ty", "integer")}})
 	for _, text := range []string{`{"a":1} trailing`, `{"a":1}{"a":"x"}`, `{"a":1} {}`, `{"a":1}  `, ` {"a":1}`, `{"a":1}` + "\n", `{"a":1`, `{a:1}`, `x`, `[1,2`, `{"a":1,}`,
-		`{"a":"x","a":1}`, `{"a":1,"a":"x"}`, `1`, `"s"`, `null`, `[]`, `{"a":1.0}`, `{"a":1.5}`, `{"a":1e0}`, `nul`, `{"a":1}]`, `true false`} {
+		`{"a":"x","a":1}`, `{"a":1,"a":"x"}`, `1`, `"s"`, `null`, `[]`, `{"a":1.0}`, `{"a":1.5}`, `{"a":1e0}`, `nul`, `{"a":1}]`, `true false`,
+		`{"a":1}}`, `{"a":1} }`, `{"a":1}` + "\n]", `{"a":1},`, `{"a":1}:`, `{"a":1}"`, `[]]`, `1}`} {
 		for _, ct := range []string{"application/json", "application/problem+json; v=1"} {
 			emit(mkCase(true, []any{mtEntry("application/json", js), mtEntry("application/*", js)}, ct, text, false))
 		}
@@ -1864,7 +1865,7 @@ func randCase0(r *hx.Rng) hx.Case {
 		text := renderJ(v, r.Chance(20), r.Chance(10))
 		switch r.Intn(25) {
 		case 0:
-			text += " x"
+			text += hx.Pick(r, []string{" x", "}", "]", " }", "\n]", ",", "{}", " null", "\"", " 1"})
 		case 1:
 			text = text[:len(text)/2]
 		case 2:
